@@ -47,6 +47,11 @@ def scenarios(pid, thorough):
         for procs in (1, 2):
             for where in ('job', 'pool', 'both'):
                 S.append(dict(kind='hard', procs=procs, where=where))
+        # a task that ignores the termination signal (SIGKILL must follow), also when the worker
+        # leads its own process group
+        S += [dict(kind='hard', procs=1, where='job', stubborn=True),
+              dict(kind='hard', procs=2, where='pool', stubborn=True, leader=True),
+              dict(kind='hard', procs=1, where='job', leader=True)]
         S += [dict(kind='hard_map', job='map'), dict(kind='hard_map', job='imap')]
     if pid == 'C06':
         for procs in (1, 2):
